@@ -1,5 +1,5 @@
 """Texts for MANIFEST.json."""
-HOOK_COMMITS = ["4db5999", "516c80b", "6e40793"]
+HOOK_COMMITS = ["4db5999", "516c80b", "6e40793", "cac4ccd"]
 
 PENDING = "check not built yet in this session (claimed by DESIGN.md; will be claimed when its theorems and correspondence family are in place)"
 NOT_APPLICABLE = {f"C{i:02d}": PENDING for i in range(1, 21)}
@@ -162,6 +162,17 @@ TEXT = {
         "note": "Trusted: Lean kernel + standard axioms; failpoint-error + reopen as a stand-in for a kill (SQLite journal / git atomicity under a real kill trusted); "
                 "in-memory object store hook.",
         "technique": "Lean 4 proof (event-sequence invariant over ChainSrv; reuse of the sync-machine theorems) + fault-injection correspondence check on four backend configurations",
+    },
+    "C14": {
+        "level": "PARTIAL. Lean theorems: the document sent is a function of the synchronized part of the operations only — batches differing only in previous values or "
+                 "deleted tasks' contents send the same characters (C14_old_values_never_leave), undo points are dropped and order kept, every other operation is sent; the "
+                 "document has exactly the documented shape and fields (C14_document_shape); every string survives print-then-parse whatever characters it holds "
+                 "(C14_string_roundtrip). The whole-document round trip (uuid / RFC 3339 printers against their parsers) is NOT a theorem: it is evaluated by the kernel on an "
+                 "example and checked on every run. Tied to the code by running the real encoder and decoder (same serde path as TaskDb::sync) against the model's independent "
+                 "printer and reader on generated batches, on documents from a foreign writer, and on malformed documents; and by judging every version real syncs send.",
+        "design_ref": "DESIGN.md §5 C14",
+        "note": "Trusted: Lean kernel + standard axioms; serde_json/chrono/uuid exercised not modelled; decode/encode hook mirrors TaskDb::sync's two serde calls.",
+        "technique": "Lean 4 proof (non-interference and shape by definition unfolding; string escape round trip by induction) + bidirectional correspondence check of encoder and decoder",
     },
     "C13": {
         "level": "PARTIAL. Lean theorems about an independent RFC-level implementation of the documented scheme (SHA-256, HMAC, PBKDF2, ChaCha20, "
